@@ -15,7 +15,8 @@ RULE = ('Generated network specs (2-8 junctions, thorough to 20; spanning tree +
         'pattern_start, demand multiplier, leaks on junctions and tanks, DD or PDD, report step = k*hyd or ALL, both '
         'H-W approximations). One WNTRSimulator run per case. Non-trivial = converged run with >= 2 reported steps and '
         'at least one of {loop, parallel pair, >= 2 sources, multi-demand junction, pattern_start != 0, active leak, '
-        'link ending at a tank}; distinct = SHA-1 of the spec.')
+        'link ending at a tank}; a quarter of the cases are judged on the rows of a history of the same model (run/reset/run again, '
+        'or pause/continue with a new simulator object); distinct = SHA-1 of the spec.')
 ASSUMPTIONS = ['Runs that WNTR reports as not converged are inconclusive (the statement is about reported steps of runs; '
                'steps reported before the failure are still checked)',
                'pattern interpolation off (WNTR-only option, not part of the statement)']
@@ -28,13 +29,20 @@ FEAT = {'nj': (2, 8), 'tanks': (0, 2), 'extra_res': (0, 1), 'pumps': True, 'valv
         'durations': [3600, 7200, 4 * 3600, 8 * 3600, 12 * 3600, 24 * 3600, 0]}
 
 
-def strategy(tier='quick'):
+@st.composite
+def strategy(draw, tier='quick'):
     f = dict(FEAT)
     if tier == 'thorough':
         f['nj'] = (2, 20)
         f['max_extra_links'] = 6
         f['durations'] = f['durations'] + [48 * 3600]
-    return netgen.network(f)
+    spec = draw(netgen.network(f))
+    # a quarter of the cases are judged on the rows of a small history of the same model: run / reset / run again (new or
+    # same simulator object), or run to a pause point and continue with a new simulator object
+    h = S.draw_history(draw, st, spec['opts'])
+    if h:
+        spec['history'] = h
+    return spec
 
 
 def summarize(case):
@@ -82,7 +90,9 @@ def check(case):
         wn = S.build_wn(case)
     except Exception as e:
         return fail(exc_bucket(e, 'build'), 'building the model raised %r' % e, tags)
-    run = S.run_wntr(wn, hw_approx=case['opts']['hw_approx'])
+    if case.get('history'):
+        tags = tags + ['history:' + case['history'][0]]
+    run = S.run_wntr_history(wn, case.get('history'), hw_approx=case['opts']['hw_approx'])
     if run.exception is not None:   # no step is reported: nothing for this property to judge (C16/C08 own this)
         return inconclusive('run_sim raised %s' % type(run.exception).__name__, tags)
     if len(run.times) == 0:
